@@ -497,5 +497,63 @@ def rule_r6(ctx) -> RuleResult:
     return rr
 
 
+def rule_r7(ctx) -> RuleResult:
+    """A parser-function call that is not expanded comes back under the name it was written with:
+    the name that the re-emitting returns of expand_parserfn concatenate has not been mapped through
+    `parser_function_aliases` -- neither inside expand_parserfn before those returns nor in the
+    helper that produced it (`{{#si:x|a}}` must not come back as `{{#if:x|a}}`)."""
+    from ..core.callgraph import CallGraph
+
+    rr = RuleResult("C13.R7", "re-emitted parser-function calls keep the name as written (no alias mapping before the re-emitting exits)",
+                    min_instances=2)
+    fn = ctx.fn(X.PARSERFN)
+    params = [a.arg for a in fn.args.args]
+    if not params:
+        raise AnalysisError("expand_parserfn: parameters vanished")
+    name_param = params[0]
+    rets = [r for r in walk_no_nested(fn) if isinstance(r, ast.Return) and r.value is not None
+            and any(isinstance(x, ast.Name) and x.id == name_param for x in ast.walk(r.value))
+            and any(isinstance(x, ast.Constant) and isinstance(x.value, str) and "{{" in x.value for x in ast.walk(r.value))]
+    if not rets:
+        raise AnalysisError("expand_parserfn: no re-emitting return that uses `{}` found".format(name_param))
+    assigns = sorted([n for n in walk_no_nested(fn) if isinstance(n, ast.Assign) and any(isinstance(t, ast.Name) and t.id == name_param for t in n.targets)],
+                     key=lambda n: n.lineno)
+    for r in rets:
+        tainted = [a for a in assigns if a.lineno < r.lineno and "parser_function_aliases" in unparse(a.value)]
+        if tainted:
+            rr.bad(Finding("C13.R7", X.CORE, X.PARSERFN, unparse(r)[:70],
+                           "the name re-emitted here was replaced through parser_function_aliases at line {}: a call written with a localized "
+                           "alias comes back under another name".format(tainted[0].lineno), r.lineno))
+        else:
+            rr.ok(X.PARSERFN, unparse(r)[:60] + " uses the name as passed in", {"return": unparse(r)[:60]})
+    # producers of the name at the call sites
+    cg = CallGraph(ctx.index)
+    rec = ctx.fn(X.RECURSE)
+    producers = set()
+    for c in walk_no_nested(rec):
+        if isinstance(c, ast.Call) and isinstance(c.func, ast.Name) and c.func.id == "expand_parserfn" and c.args and isinstance(c.args[0], ast.Name):
+            v = c.args[0].id
+            for a in walk_no_nested(rec):
+                if isinstance(a, ast.Assign) and any(isinstance(t, ast.Name) and t.id == v for t in a.targets) and a.lineno < c.lineno:
+                    for cc in ast.walk(a.value):
+                        if isinstance(cc, ast.Call) and isinstance(cc.func, ast.Attribute) and ctx.index.has_func("core.Wtp." + cc.func.attr):
+                            producers.add("core.Wtp." + cc.func.attr)
+                    if "parser_function_aliases" in unparse(a.value):
+                        rr.bad(Finding("C13.R7", X.CORE, X.RECURSE, unparse(a)[:70], "the function name is alias-mapped before expand_parserfn sees it", a.lineno))
+    for pfn in sorted(producers):
+        hit = None
+        for f in sorted({pfn} | cg.closure([pfn])):
+            if ctx.index.has_func(f) and any(isinstance(x, ast.Attribute) and x.attr == "parser_function_aliases" for x in ast.walk(ctx.index.func(f))):
+                hit = f
+                break
+        if hit:
+            rr.bad(Finding("C13.R7", X.CORE, pfn, "parser_function_aliases consulted in " + hit,
+                           "{} feeds the name that expand_parserfn re-emits and maps it through the alias table: with expand_parserfns off, "
+                           "`{{{{#si:x|a|b}}}}` comes back as `{{{{#if:x|a|b}}}}`".format(pfn.split(".")[-1]), ctx.index.func(pfn).lineno))
+        else:
+            rr.ok(pfn, "normalises spelling only (no alias mapping)", {"producer": pfn})
+    return rr
+
+
 def run(ctx) -> list:
-    return [rule_r1(ctx), rule_r2(ctx), rule_r3(ctx), rule_r4(ctx), rule_r5(ctx), rule_r6(ctx)]
+    return [rule_r1(ctx), rule_r2(ctx), rule_r3(ctx), rule_r4(ctx), rule_r5(ctx), rule_r6(ctx), rule_r7(ctx)]
